@@ -3,6 +3,14 @@
 #[cfg(kani)]
 pub mod model;
 #[cfg(kani)]
-mod c26;
+pub mod c26;
+#[cfg(kani)]
+pub mod c27;
+#[cfg(kani)]
+pub mod c20;
+#[cfg(kani)]
+pub mod c21;
+#[cfg(kani)]
+pub mod c24;
 #[cfg(all(kani, test))]
 mod playback_gen;
